@@ -796,9 +796,11 @@ PROPS = {
                        "input that is still to be read (same_reader) and move to a builder of their own, with everything converted so far, before they "
                        "would; the decoder gets its symbols and then process_tail exactly once, last, and the result is everything it handed out; the "
                        "loop over the tokens of an entry terminates because every token moves the reader on -- proved from next_item and next_symbol "
-                       "agreeing on which octets end an unquoted token (special_octet / Symbol::is_word_char).",
+                       "agreeing on which octets end an unquoted token (special_octet / Symbol::is_word_char). scan_octets, scan_svcb_octets and scan_ascii_str "
+                       "(real text): the in-place rewriting of escapes stays inside the buffer and behind the read position, and the safety condition of the "
+                       "unsafe str::from_utf8_unchecked in scan_ascii_str holds (only octets below 128 are handed over).",
         "not_covered": "Layout independence beyond the metamorphic search c07_search_layouts (a relation between two runs on two files; no contract on a single call expresses it), "
-                       "the rest of EntryScanner (scan_entry, scan_octets, scan_ascii_str with from_utf8_unchecked, scan_svcb_octets; convert_token / convert_entry / append_data are under contract: in-place safety, converter protocol, termination of the token loop -- but not which symbols a token consists of), record-data "
+                       "the rest of EntryScanner (scan_entry, scan_symbols / scan_entry_symbols (FnMut closures), scan_charstr_entry; what scan_octets / scan_ascii_str return is not specified beyond safety; convert_token / convert_entry / append_data are under contract: in-place safety, converter protocol, termination of the token loop -- but not which symbols a token consists of), record-data "
                        "scan() functions, $ORIGIN/$TTL/class inheritance, error positions. Symbol::from_slice_index is assumed to "
                        "return an end position inside the buffer (its own totality is not proved).",
         "assumptions": [
